@@ -154,18 +154,24 @@ package casketfile
 
 //@ unit lexer_next props=C10 filter=`casketfile\.lexer\)\.next$`
 //@ ghost remaining int
+//@ // ghost: number of line feeds the reader has handed out so far (advanced by the ReadRune contract only)
+//@ ghost nlRead int
 //@ invariant remaining >= 0
 //@ extern (*bufio.Reader).ReadRune
-//@   modifies ghost:remaining
+//@   modifies ghost:remaining, ghost:nlRead
 //@   ensures (result2 == nil ==> (old(remaining) > 0 && remaining == old(remaining) - 1)) && (result2 != nil ==> remaining == old(remaining))
+//@   ensures ((result2 == nil && result0 == 10) ==> nlRead == old(nlRead) + 1) && (!(result2 == nil && result0 == 10) ==> nlRead == old(nlRead))
 //@ extern unicode.IsSpace
 //@   pure
+//@   ensures r == 10 ==> result
 
 //@ func (*lexer).next
 //@   may_panic
 //@   requires l != nil && l.reader != nil
-//@   modifies ghost:remaining, lexer.line, lexer.token, Token.Text
+//@   modifies ghost:remaining, ghost:nlRead, lexer.line, lexer.token, Token.Text
+//@   ensures [every_line_feed_counted] l.line - old(l.line) == nlRead - old(nlRead)
 //@   ensures [consumes_input] remaining <= old(remaining)
 //@   ensures [false_means_exhausted] !result ==> remaining == old(remaining) || remaining < old(remaining)
 //@   loop 1 invariant remaining <= old(remaining) && l != nil && l.reader != nil
+//@   loop 1 invariant [line_counter_tracks_input] l.line - old(l.line) == nlRead - old(nlRead)
 //@   loop 1 decreases remaining
